@@ -19,7 +19,7 @@ type c13 struct{ base }
 
 func init() {
 	core.Register(c13{base{id: "C13", level: "exploration", quickB: 16, thoroughB: 32,
-		rule: "after a scripted COPY handler starts COPY-in (1-20 columns, text or binary), the client sends sequences over {CopyData(payload of size 0,1,4095-4097,near L,random), Flush, Sync} ended by one of {CopyDone, CopyFail(text), Query, Parse, unknown-type message, oversized CopyData, Terminate, nothing (handler stops first)}, followed by stray CopyData/CopyDone/CopyFail and a probe Query; handler variants: read to the end and propagate errors / stop after k chunks with its own error / stop after k chunks and complete / swallow the abort and complete. Simple-Query mode and Execute mode (trailing Sync). quick: exhaustive sequences of length <= 4 over a 6-symbol alphabet x terminators + random length <= 8; lock-step, every step's reply and the chunks/errors the handler observed are compared with the COPY model. Non-trivial = abort path, interleaved Flush/Sync, stop-early handler or stray messages; distinct = (mode, handler variant, message-kind sequence).",
+		rule: "after a scripted COPY handler starts COPY-in (1-20 columns, text or binary), the client sends sequences over {CopyData(payload of size 0,1,4095-4097,near L,random), Flush, Sync} ended by one of {CopyDone, CopyFail(text), Query, Parse, unknown-type message, oversized CopyData, Terminate, nothing (handler stops first)}, followed by stray CopyData/CopyDone/CopyFail and a probe Query; handler variants: read to the end and propagate errors / answer an abort with its own error / stop after k chunks with its own error / stop after k chunks and complete / swallow the abort and complete; the handler's own error is plain or wraps io.ErrUnexpectedEOF, net.ErrClosed, context.Canceled or io.EOF. Simple-Query mode and Execute mode (trailing Sync). quick: exhaustive sequences of length <= 4 over a 6-symbol alphabet x terminators + random length <= 8; lock-step, every step's reply and the chunks/errors the handler observed are compared with the COPY model. Non-trivial = abort path, interleaved Flush/Sync, stop-early handler or stray messages; distinct = (mode, handler variant, message-kind sequence).",
 		need:        []string{"copy_cycles", "chunks_compared", "copyfail_aborts", "foreign_message_aborts", "flush_sync_ignored", "stray_copy_messages", "handler_stops_early", "execute_mode_cycles"},
 		assumptions: append([]string{"'exactly one ErrorResponse' is judged for handlers that propagate the reader's error or fail themselves; a handler that swallows the abort and completes is judged for well-formedness, chunk fidelity and a single ReadyForQuery"}, commonAssumptions...)}})
 }
@@ -33,6 +33,7 @@ type c13case struct {
 	Handler string   // propagate | stop-own | stop-complete | swallow
 	StopAt  int
 	Strays  []string
+	OwnErr  int // which error the handler fails with (index into hs.OwnErrs)
 }
 
 func (k c13case) sig() string {
@@ -40,7 +41,7 @@ func (k c13case) sig() string {
 	for i, s := range k.Seq {
 		seq[i] = s[:1]
 	}
-	return fmt.Sprintf("exec=%v h=%s@%d [%s] %s strays=%d", k.Exec, k.Handler, k.StopAt, strings.Join(seq, ""), k.Term, len(k.Strays))
+	return fmt.Sprintf("exec=%v h=%s@%d/e%d [%s] %s strays=%d", k.Exec, k.Handler, k.StopAt, k.OwnErr, strings.Join(seq, ""), k.Term, len(k.Strays))
 }
 
 const c13L = 1 << 16
@@ -65,7 +66,10 @@ func (ch c13) runCase(c *core.Ctx, env *hs.Env, k c13case, rng *core.Rng, idx in
 	for j := 0; j < k.NCols; j++ {
 		cols = append(cols, wire.Column{Name: fmt.Sprintf("c%d", j), Oid: oid.T_text, Width: -1})
 	}
-	plan := &hs.CopyPlan{Format: wire.FormatCode(k.Format), MaxReads: -1, OnErr: "propagate"}
+	plan := &hs.CopyPlan{Format: wire.FormatCode(k.Format), MaxReads: -1, OnErr: "propagate", OwnErr: k.OwnErr}
+	if k.Handler == "own-on-error" {
+		plan.OnErr = "own"
+	}
 	switch k.Handler {
 	case "stop-own":
 		plan.MaxReads, plan.OnStop = k.StopAt, "own"
@@ -118,7 +122,7 @@ func (ch c13) runCase(c *core.Ctx, env *hs.Env, k c13case, rng *core.Rng, idx in
 				return false
 			}
 		}
-		if strings.Contains(want, "E") && k.Term == "oversize" {
+		if strings.Contains(want, "E") && k.Term == "oversize" && (k.Handler == "propagate" || k.Handler == "swallow") {
 			for _, m := range msgs {
 				if m.T == 'E' && (m.Err['C'] != "54000" || m.Err['S'] != "ERROR") {
 					viol("oversize-error", "oversized CopyData not reported as ERROR/54000", fmt.Sprint(m.Err))
@@ -388,7 +392,7 @@ func (ch c13) Run(c *core.Ctx) {
 	env := hs.Start(hs.Parse, wire.MessageBufferSize(c13L))
 	defer env.Stop()
 	terms := []string{"done", "fail", "query", "parse", "unknown", "oversize", "terminate", "none"}
-	handlers := []string{"propagate", "stop-own", "stop-complete", "swallow"}
+	handlers := []string{"propagate", "stop-own", "stop-complete", "swallow", "own-on-error"}
 	fix := func(k *c13case, rng *core.Rng) {
 		nd := 0
 		for _, s := range k.Seq {
@@ -438,7 +442,7 @@ func (ch c13) Run(c *core.Ctx) {
 			for hi, h := range handlers {
 				if total%nb == c.Batch && c.Begin(idx) && c.NViol() < 10 {
 					rng := core.NewRng(c.Seed, "C13e", 0, total)
-					k := c13case{NCols: 1 + (total % 20), Format: int16(total % 2), Exec: (total/2)%3 == 0, Seq: append([]string(nil), cur...), Term: term, Handler: h}
+					k := c13case{NCols: 1 + (total % 20), Format: int16(total % 2), Exec: (total/2)%3 == 0, Seq: append([]string(nil), cur...), Term: term, Handler: h, OwnErr: total % 5}
 					for n := (ti + hi) % 3; n > 0; n-- {
 						k.Strays = append(k.Strays, core.Pick(rng, []string{"d", "c", "f"}))
 					}
@@ -470,7 +474,7 @@ func (ch c13) Run(c *core.Ctx) {
 			continue
 		}
 		rng := core.NewRng(c.Seed, "C13", 0, i)
-		k := c13case{NCols: 1 + rng.Intn(20), Format: int16(rng.Intn(2)), Exec: rng.Intn(3) == 0, Term: core.Pick(rng, terms), Handler: core.Pick(rng, handlers)}
+		k := c13case{NCols: 1 + rng.Intn(20), Format: int16(rng.Intn(2)), Exec: rng.Intn(3) == 0, Term: core.Pick(rng, terms), Handler: core.Pick(rng, handlers), OwnErr: rng.Intn(5)}
 		for n := rng.Intn(9); n > 0; n-- {
 			k.Seq = append(k.Seq, core.Pick(rng, []string{"d", "d", "d", "H", "S"}))
 		}
